@@ -238,74 +238,109 @@ def parseHandle (s : DSt) (t : String) : Option Nat :=
   | some h => if s.nl ≤ h ∧ h < s.fresh then some h else none
   | none => none
 
-/-- One operation: `none` = unparsable, `some none` = panic. -/
-def DSt.step (s : DSt) (ts : List String) : Option (Option (DSt × String)) :=
+/-! ### operations as data (what the refinement theorem `c13_dlist_refines` quantifies over) -/
+
+/-- One call of the `DList` / `DNode` API: `l`, `o` = receiver / other list (sentinel ids),
+`e`, `mark` = node handles, `v` = value. -/
+inductive DOp where
+  | new (v : Int)                              -- `&DNode[T]{Value: v}`
+  | init (l : Nat)
+  | pushFront (l : Nat) (v : Int)
+  | pushBack (l : Nat) (v : Int)
+  | insertBefore (l : Nat) (v : Int) (mark : Nat)
+  | insertAfter (l : Nat) (v : Int) (mark : Nat)
+  | pushFrontNode (l e : Nat)
+  | pushBackNode (l e : Nat)
+  | insertNodeBefore (l e mark : Nat)
+  | insertNodeAfter (l e mark : Nat)
+  | moveToFront (l e : Nat)
+  | moveToBack (l e : Nat)
+  | moveBefore (l e mark : Nat)
+  | moveAfter (l e mark : Nat)
+  | remove (l e : Nat)
+  | pushBackDList (l o : Nat)
+  | pushFrontDList (l o : Nat)
+  | len (l : Nat)
+  | front (l : Nat)
+  | back (l : Nat)
+  | next (e : Nat)
+  | prev (e : Nat)
+
+/-- What a call returns: nothing, a node pointer (`none` = nil), or a value / length. -/
+inductive DRes where
+  | unit
+  | ptr (p : Ptr)
+  | int (v : Int)
+deriving DecidableEq
+
+/-- Run one call on the memory; `none` = Go panic. -/
+def DSt.apply (s : DSt) : DOp → Option (DSt × DRes)
+  | .new v => let (s1, e) := s.alloc v; some (s1, .ptr (some e))
+  | .init l => some (s.init l, .unit)
+  | .pushFront l v => (s.pushFront l v).map fun (s1, e) => (s1, .ptr (some e))
+  | .pushBack l v => (s.pushBack l v).map fun (s1, e) => (s1, .ptr (some e))
+  | .insertBefore l v m => (s.insertBefore l v m).map fun (s1, e) => (s1, .ptr e)
+  | .insertAfter l v m => (s.insertAfter l v m).map fun (s1, e) => (s1, .ptr e)
+  | .pushFrontNode l e => (s.pushFrontNode l e).map fun s1 => (s1, .unit)
+  | .pushBackNode l e => (s.pushBackNode l e).map fun s1 => (s1, .unit)
+  | .insertNodeBefore l e m => (s.insertNodeBefore l e m).map fun s1 => (s1, .unit)
+  | .insertNodeAfter l e m => (s.insertNodeAfter l e m).map fun s1 => (s1, .unit)
+  | .moveToFront l e => (s.moveToFront l e).map fun s1 => (s1, .unit)
+  | .moveToBack l e => (s.moveToBack l e).map fun s1 => (s1, .unit)
+  | .moveBefore l e m => (s.moveBefore l e m).map fun s1 => (s1, .unit)
+  | .moveAfter l e m => (s.moveAfter l e m).map fun s1 => (s1, .unit)
+  | .remove l e => (s.removeNode l e).map fun (s1, v) => (s1, .int v)
+  | .pushBackDList l o => (s.pushBackDList l o).map fun s1 => (s1, .unit)
+  | .pushFrontDList l o => (s.pushFrontDList l o).map fun s1 => (s1, .unit)
+  | .len l => some (s, .int (s.lenOf l))
+  | .front l => some (s, .ptr (s.front l))
+  | .back l => some (s, .ptr (s.back l))
+  | .next e => some (s, .ptr (s.nodeNext e))
+  | .prev e => some (s, .ptr (s.nodePrev e))
+
+def showRes : DRes → String
+  | .unit => "ok"
+  | .ptr p => showPtr p
+  | .int v => toString v
+
+/-- Parse one protocol line into a call (`none` = unparsable). -/
+def parseDOp (s : DSt) (ts : List String) : Option DOp :=
   match ts with
-  | ["new", v] => do
-    let v ← v.toInt?
-    let (s1, e) := s.alloc v
-    pure (some (s1, toString e))
-  | ["init", l] => do
-    let l ← parseList s l
-    pure (some (s.init l, "ok"))
-  | ["pf", l, v] => do
-    let l ← parseList s l; let v ← v.toInt?
-    pure ((s.pushFront l v).map fun (s1, e) => (s1, toString e))
-  | ["pb", l, v] => do
-    let l ← parseList s l; let v ← v.toInt?
-    pure ((s.pushBack l v).map fun (s1, e) => (s1, toString e))
+  | ["new", v] => do let v ← v.toInt?; pure (.new v)
+  | ["init", l] => do let l ← parseList s l; pure (.init l)
+  | ["pf", l, v] => do let l ← parseList s l; let v ← v.toInt?; pure (.pushFront l v)
+  | ["pb", l, v] => do let l ← parseList s l; let v ← v.toInt?; pure (.pushBack l v)
   | ["ib", l, v, m] => do
-    let l ← parseList s l; let v ← v.toInt?; let m ← parseHandle s m
-    pure ((s.insertBefore l v m).map fun (s1, e) => (s1, showPtr e))
+    let l ← parseList s l; let v ← v.toInt?; let m ← parseHandle s m; pure (.insertBefore l v m)
   | ["ia", l, v, m] => do
-    let l ← parseList s l; let v ← v.toInt?; let m ← parseHandle s m
-    pure ((s.insertAfter l v m).map fun (s1, e) => (s1, showPtr e))
-  | ["pfn", l, e] => do
-    let l ← parseList s l; let e ← parseHandle s e
-    pure ((s.pushFrontNode l e).map fun s1 => (s1, "ok"))
-  | ["pbn", l, e] => do
-    let l ← parseList s l; let e ← parseHandle s e
-    pure ((s.pushBackNode l e).map fun s1 => (s1, "ok"))
+    let l ← parseList s l; let v ← v.toInt?; let m ← parseHandle s m; pure (.insertAfter l v m)
+  | ["pfn", l, e] => do let l ← parseList s l; let e ← parseHandle s e; pure (.pushFrontNode l e)
+  | ["pbn", l, e] => do let l ← parseList s l; let e ← parseHandle s e; pure (.pushBackNode l e)
   | ["inb", l, e, m] => do
-    let l ← parseList s l; let e ← parseHandle s e; let m ← parseHandle s m
-    pure ((s.insertNodeBefore l e m).map fun s1 => (s1, "ok"))
+    let l ← parseList s l; let e ← parseHandle s e; let m ← parseHandle s m; pure (.insertNodeBefore l e m)
   | ["ina", l, e, m] => do
-    let l ← parseList s l; let e ← parseHandle s e; let m ← parseHandle s m
-    pure ((s.insertNodeAfter l e m).map fun s1 => (s1, "ok"))
-  | ["mtf", l, e] => do
-    let l ← parseList s l; let e ← parseHandle s e
-    pure ((s.moveToFront l e).map fun s1 => (s1, "ok"))
-  | ["mtb", l, e] => do
-    let l ← parseList s l; let e ← parseHandle s e
-    pure ((s.moveToBack l e).map fun s1 => (s1, "ok"))
+    let l ← parseList s l; let e ← parseHandle s e; let m ← parseHandle s m; pure (.insertNodeAfter l e m)
+  | ["mtf", l, e] => do let l ← parseList s l; let e ← parseHandle s e; pure (.moveToFront l e)
+  | ["mtb", l, e] => do let l ← parseList s l; let e ← parseHandle s e; pure (.moveToBack l e)
   | ["mb", l, e, m] => do
-    let l ← parseList s l; let e ← parseHandle s e; let m ← parseHandle s m
-    pure ((s.moveBefore l e m).map fun s1 => (s1, "ok"))
+    let l ← parseList s l; let e ← parseHandle s e; let m ← parseHandle s m; pure (.moveBefore l e m)
   | ["ma", l, e, m] => do
-    let l ← parseList s l; let e ← parseHandle s e; let m ← parseHandle s m
-    pure ((s.moveAfter l e m).map fun s1 => (s1, "ok"))
-  | ["rm", l, e] => do
-    let l ← parseList s l; let e ← parseHandle s e
-    pure ((s.removeNode l e).map fun (s1, v) => (s1, toString v))
-  | ["pbl", l, o] => do
-    let l ← parseList s l; let o ← parseList s o
-    pure ((s.pushBackDList l o).map fun s1 => (s1, "ok"))
-  | ["pfl", l, o] => do
-    let l ← parseList s l; let o ← parseList s o
-    pure ((s.pushFrontDList l o).map fun s1 => (s1, "ok"))
-  | ["front", l] => do
-    let l ← parseList s l
-    pure (some (s, showPtr (s.front l)))
-  | ["back", l] => do
-    let l ← parseList s l
-    pure (some (s, showPtr (s.back l)))
-  | ["next", e] => do
-    let e ← parseHandle s e
-    pure (some (s, showPtr (s.nodeNext e)))
-  | ["prev", e] => do
-    let e ← parseHandle s e
-    pure (some (s, showPtr (s.nodePrev e)))
+    let l ← parseList s l; let e ← parseHandle s e; let m ← parseHandle s m; pure (.moveAfter l e m)
+  | ["rm", l, e] => do let l ← parseList s l; let e ← parseHandle s e; pure (.remove l e)
+  | ["pbl", l, o] => do let l ← parseList s l; let o ← parseList s o; pure (.pushBackDList l o)
+  | ["pfl", l, o] => do let l ← parseList s l; let o ← parseList s o; pure (.pushFrontDList l o)
+  | ["len", l] => do let l ← parseList s l; pure (.len l)
+  | ["front", l] => do let l ← parseList s l; pure (.front l)
+  | ["back", l] => do let l ← parseList s l; pure (.back l)
+  | ["next", e] => do let e ← parseHandle s e; pure (.next e)
+  | ["prev", e] => do let e ← parseHandle s e; pure (.prev e)
   | _ => none
+
+/-- One protocol line: `none` = unparsable, `some none` = panic.  The oracle runs exactly the
+function `DSt.apply` the refinement theorem is about. -/
+def DSt.step (s : DSt) (ts : List String) : Option (Option (DSt × String)) := do
+  let op ← parseDOp s ts
+  pure ((s.apply op).map fun (s1, r) => (s1, showRes r))
 
 def runDOps : Option DSt → List String → List String
   | _, [] => []
